@@ -1,0 +1,23 @@
+//go:build verif
+
+package build
+
+import (
+	"net/http"
+
+	"github.com/thought-machine/please/src/core"
+)
+
+// VerifC10Headers exposes setHeaders (the request headers of the built-in remote_file action) to the verification
+// harness of property C10: it runs the real function on a fresh GET request and returns the headers it set.
+// Add-only; compiled only with the build tag verif.
+func VerifC10Headers(target *core.BuildTarget, env core.BuildEnv, url string) (http.Header, error) {
+	req, err := http.NewRequest(http.MethodGet, url, nil)
+	if err != nil {
+		return nil, err
+	}
+	if err := setHeaders(req, target, env); err != nil {
+		return nil, err
+	}
+	return req.Header, nil
+}
